@@ -19,6 +19,7 @@ APIS = {
     "checkpoint_update": ["checkpoint", "update"],
     "checkpoint_delete": ["checkpoint", "delete"],
     "out_delete": ["out", "delete", "--all"],
+    "out_delete_plain": ["out", "delete"],
 }
 TARGETS = [{"path": "a"}, {"path": "b"}]
 
